@@ -11,9 +11,13 @@ Inductive ikind := KNearest | KLinear | KPerAxis.
 (* value dtype class: floating (float32/64; complex = two real runs), integer, string *)
 Inductive vdtype := DFloat | DInt | DStr.
 
-(* measured variants of recorded defects (true = defect present in the code under test) *)
-Record variants := { int_raises : bool;      (* per-axis all-'nearest' evaluation on int/str values raises *)
-                     mesh1_raises : bool }.  (* mesh grid with one point along the FIRST axis raises *)
+(* Two defects of the pinned snapshot were repaired in /repo (e032ff0, d20d299).  The model is the
+   REPAIRED code ([current]); the old behaviour stays expressible as the explicit variant [as_found]
+   so that C15/Refuted.v can still say what was wrong with it. *)
+Record variants := { int_raises : bool;      (* old: per-axis all-'nearest' evaluation used the arithmetic path *)
+                     mesh1_raises : bool }.  (* old: mesh grid with one point along the FIRST axis raised *)
+Definition current : variants := {| int_raises := false; mesh1_raises := false |}.
+Definition as_found : variants := {| int_raises := true; mesh1_raises := true |}.
 
 Section Call.
 Context {T : Type} `{Num T}.
@@ -29,26 +33,33 @@ Definition schemes_of (k : ikind) (ss : list scheme) (cvs : list (list T)) : lis
   | KPerAxis => ss
   end.
 
-(* the values, per factory and calling convention *)
-Definition run (k : ikind) (ss : list scheme) (cvs : list (list T)) (flat : list T) (i : input) : list T :=
+Definition has_linear (ss : list scheme) : bool :=
+  existsb (fun s => match s with SLinear => true | SNearest => false end) ss.
+
+(* the values, per factory and calling convention.  per_axis_interpolator with all-'nearest'
+   schemes is served by _NearestInterpolator (since d20d299; before: by the per-axis evaluator) *)
+Definition run (var : variants) (k : ikind) (ss : list scheme) (cvs : list (list T)) (flat : list T) (i : input)
+  : list T :=
   let v := vget (map (@length T) cvs) flat in
-  match k, i with
-  | KNearest, IPoints pts => nearest_points cvs v pts
-  | KNearest, IMesh m => nearest_mesh cvs v m
-  | _, IPoints pts => peraxis_points (schemes_of k ss cvs) cvs v pts
-  | _, IMesh m => peraxis_mesh (schemes_of k ss cvs) cvs v m
+  let index_based := match k with
+                     | KNearest => true
+                     | KPerAxis => negb (int_raises var) && negb (has_linear ss)
+                     | KLinear => false
+                     end in
+  match index_based, i with
+  | true, IPoints pts => nearest_points cvs v pts
+  | true, IMesh m => nearest_mesh cvs v m
+  | false, IPoints pts => peraxis_points (schemes_of k ss cvs) cvs v pts
+  | false, IMesh m => peraxis_mesh (schemes_of k ss cvs) cvs v m
   end.
 
 (* mesh grid of d >= 2 axes with one point along the first axis, not all axes single:
-   np.asarray(mesh, dtype=object) raises ValueError (recorded defect) *)
+   np.asarray(mesh, dtype=object) raised ValueError in the old variant (repaired by e032ff0) *)
 Definition mesh1 (i : input) : bool :=
   match i with
   | IMesh ((x0 :: nil) :: (_ :: _) as m) => existsb (fun xs => negb (length xs =? 1)%nat) m
   | _ => false
   end.
-
-Definition has_linear (ss : list scheme) : bool :=
-  existsb (fun s => match s with SLinear => true | SNearest => false end) ss.
 
 (* _check_interp_input / _Interpolator.__call__ reject (ValueError): points whose dimension is
    not the grid dimension, and an out array of the wrong shape or dtype *)
@@ -71,18 +82,17 @@ Definition malformed (cvs : list (list T)) (i : input) (outarg : option (list na
      | None => false
      end.
 
-(* integer / string values: only index-based evaluation is defined.  The per-axis evaluator
-   does arithmetic on the values (TypeError) -- for all-'nearest' schemes that is the recorded
-   defect [int_raises]; once repaired, all-'nearest' per-axis evaluation returns node values. *)
+(* integer / string values: only index-based evaluation is defined; the per-axis evaluator does
+   arithmetic on the values (TypeError) whenever some axis is 'linear' *)
 Definition interp_call (var : variants) (k : ikind) (ss : list scheme) (cvs : list (list T)) (dt : vdtype)
            (flat : list T) (i : input) (outarg : option (list nat * bool)) : outcome :=
   if malformed cvs i outarg then ValueErr
   else if mesh1_raises var && mesh1 i then ValueErr
   else match k, dt with
-  | KNearest, _ => Ok (run k ss cvs flat i)
+  | KNearest, _ => Ok (run var k ss cvs flat i)
   | _, DInt | _, DStr =>
-      if int_raises var || has_linear (schemes_of k ss cvs) then TypeErr else Ok (run k ss cvs flat i)
+      if int_raises var || has_linear (schemes_of k ss cvs) then TypeErr else Ok (run var k ss cvs flat i)
   | _, DFloat =>
-      if degenerate (schemes_of k ss cvs) cvs then NonFinite else Ok (run k ss cvs flat i)
+      if degenerate (schemes_of k ss cvs) cvs then NonFinite else Ok (run var k ss cvs flat i)
   end.
 End Call.
